@@ -409,6 +409,9 @@ PROPS["C17"] = {
     "rule": ("a case = (chains, configuration, fault plan); non-trivial = at least one injected fault or reordering and a target at least two chunks above the ancestor; distinct = distinct description."),
     "assumptions": ["chain.StubBlockChain (repository test helper) is a correct model of the chain service's AddBlock contract"],
     "units": [
+        {"pkg": "verifx/tree", "run": "^TestC17Anchors$",
+         "quick": {"checks": 25, "shards": 8, "timeout": 600, "env": {"VERIF_C17_LONGPCT": 16}},
+         "thorough": {"checks": 300, "shards": 12, "timeout": 1700, "env": {"VERIF_C17_LONGPCT": 20}}},
         {"pkg": "syncer", "run": "^TestC17Sync$",
          "quick": {"checks": 60, "shards": 12, "timeout": 600},
          "thorough": {"checks": 800, "shards": 16, "timeout": 1700}},
@@ -472,3 +475,11 @@ _amend("C17", "level_text", "the session ends (within 25 s) not running, success
        "the session ends — it is a stall when the syncer is still running and has sent no request for 8 s — not running, success implies the target height, a run with only delays / stale answers must succeed (unless it ended on one of the syncer's own response timers), and a second fault-free session reaches the remote tip.")
 _amend("C17", "level_note", "A run that does not end within 25 s is reported as a violation only because the unchanged tree never needed more than 3 s in 50 000 runs; set VERIF_C17_DEADLINE to change it.",
        "Stall detection is progress-based (a live session re-sends a lost block request every 250 ms and the harness releases delayed answers as soon as the syncer goes quiet); a session still exchanging messages after 90 s is skipped, not judged. The hash fetcher keeps its production timer (shortened only when a hash answer is made invalid, which it notices by timing out).")
+
+_amend("C17", "technique", "fault-schedule PBT (rapid) against the real Syncer",
+       "PBT (rapid) of the anchor exchange between two real chain services (local anchors -> remote ancestor answer) over generated fork shapes, and fault-schedule PBT (rapid) against the real Syncer")
+_amend("C17", "level_text", "Local / remote stub chains (highest shared block 0-12",
+       "Anchor unit: real chain services L and R sharing a prefix of 0-40 blocks, with 0-70 (sometimes 470-540, so that the lowest anchor is not genesis) own blocks on L and 0-40 on R, R additionally holding up to 24 blocks of L's branch as an unadopted side branch; L's anchors must be its main-chain hashes in strictly descending order from its best block, and R's answer must be the highest anchor that lies on R's main chain ('no ancestor' only when none does). Syncer unit: local / remote stub chains (highest shared block 0-12")
+_amend("C13", "level_text", "Size() and the unconfirmed report equal recomputed totals,",
+       "Size() and the unconfirmed report equal recomputed totals, a fetch with a small drawn byte budget (transactions of about 150 and 1350 bytes are mixed) returns per account a gap-free prefix of the run and fits the budget,")
+_amend("C16", "level_text", "Part A:", "Part A (hard states are persisted on their own or through SaveEntry with an empty entry batch; followers' Next runs ahead of Match when entries are in flight):") if "Part A:" in PROPS["C16"]["level_text"] else None
